@@ -378,11 +378,17 @@ class C16(Prop):
                 if not o:
                     return typing.FrozenSet
                 ts = {expected(e_) for e_ in o}
-                return typing.FrozenSet[ts.pop()] if len(ts) == 1 else None
+                if len(ts) == 1:
+                    return typing.FrozenSet[ts.pop()]
+                # elements of one collection type with different deep types: the common origin
+                kinds = {type(e_) for e_ in o}
+                return typing.FrozenSet[kinds.pop()] if len(kinds) == 1 and kinds <= {tuple, frozenset} else None
             return type(o)
 
         pool = [(3, 4), (3.0, 4.0), (True, 4), (1, 0), (True, False), (1.0, 0), ((1,), 2), ((True,), 2.0), ((1.0,), 2), ("a", 1), ("a", True), ("a", 1.0),
-                frozenset([1]), frozenset([1.0]), frozenset([True]), (frozenset([1]), 1), (frozenset([True]), 1.0), (), ((),), (0,), (False,), (0.0,)]
+                frozenset([1]), frozenset([1.0]), frozenset([True]), (frozenset([1]), 1), (frozenset([True]), 1.0), (), ((),), (0,), (False,), (0.0,),
+                frozenset([(1, 2), (3, 4.0)]), frozenset([(1, 2), (3, 4)]), frozenset([(1,), (1, 2)]), frozenset([("a", 1), ("b", 2.0)]), frozenset([frozenset([1]), frozenset(["a"])]),
+                frozenset([frozenset([1]), frozenset([2])]), (frozenset([(1, 2), (3.0, 4)]),), frozenset([("a", 1), ("b", 2)])]
         for _ in range(r.randint(6, 16)):
             o = r.choice(pool)
             want = expected(o)
